@@ -3,6 +3,8 @@
 use crate::scenario::*;
 use simos::interp::{self, Exec};
 use simos::world::{self, with_world, Ev, HintMode, Owner, Policy, World, PROT_R, PROT_X};
+/// Linux/arm64 `PROT_BTI`
+const PROT_BTI: i32 = 0x10;
 use simos::SimSegv;
 use std::collections::{BTreeMap, BTreeSet};
 
@@ -323,6 +325,20 @@ impl<'a> Checker<'a> {
                             Inst::Fake(f) => Some(*f),
                             Inst::Bool(_) => None,
                         };
+                        // "every call, from any call site": a call through a function pointer is a
+                        // `blr`; on a guarded page its first instruction must be a landing pad
+                        if self.arch == Arch::A64 && w.prot_at(*t).map(|p| p & PROT_BTI != 0).unwrap_or(false) {
+                            let first = w.peek(*t, 4).map(|b| u32::from_le_bytes([b[0], b[1], b[2], b[3]])).unwrap_or(0);
+                            // bti c / bti jc / paciasp / pacibsp
+                            if !matches!(first, 0xd503245f | 0xd50324df | 0xd503233f | 0xd503237f) {
+                                found.push((
+                                    "indirect-call-of-faked-function-faults".into(),
+                                    self.props_redirect_entry(),
+                                    format!("{when}: target #{ti} at {:#x} lies on a page that is (still) guarded by PROT_BTI and its entry now begins with {first:#010x}, not a landing pad: a call through a function pointer (`blr`) raises a Branch Target exception instead of reaching the fake", t),
+                                ));
+                                continue;
+                            }
+                        }
                         // stage A: the entry patch alone must land inside a trampoline mapping
                         if self.arch != Arch::Arm {
                             let a = self.run_interp(w, *t, &[(s, e)], stop);
@@ -1004,7 +1020,7 @@ fn build_world(sc: &SimScenario) -> (World, Vec<(u64, Vec<u8>)>) {
             }
         }
         pristine.push((t.addr, data.clone()));
-        w.map_fixed(t.addr, len, if sc.text_rwx { PROT_R | PROT_X | world::PROT_W } else { PROT_R | PROT_X }, Owner::Text, Some(data));
+        w.map_fixed(t.addr, len, (if sc.text_rwx { PROT_R | PROT_X | world::PROT_W } else { PROT_R | PROT_X }) | if sc.text_bti { PROT_BTI } else { 0 }, Owner::Text, Some(data));
     }
     for (s, l) in &sc.foreign {
         w.map_fixed(*s, *l, 0, Owner::Foreign, None);
@@ -1119,10 +1135,11 @@ pub fn execute(sc: &SimScenario) -> Outcome {
         for ev in &lt.pre {
             match ev.as_str() {
                 "reprotect_text" => {
+                    let bti = sc.text_bti;
                     with_world(|w| {
                         for (_, r) in w.regions.iter_mut() {
                             if r.owner == Owner::Text {
-                                r.prot = PROT_R | PROT_X;
+                                r.prot = PROT_R | PROT_X | if bti { PROT_BTI } else { 0 };
                             }
                         }
                     });
